@@ -7,6 +7,9 @@ import (
 	"io"
 	"os"
 	"path/filepath"
+	"sort"
+	"strconv"
+	"strings"
 )
 
 // merge临时目录名称后缀
@@ -204,43 +207,62 @@ func (db *DB) loadMergeFiles() (uint32, error) {
 		return 0, nil
 	}
 
-	defer func() {
-		// 加载完成后删除 merge 目录
-		_ = os.RemoveAll(mergePath)
-	}()
+	// 收集 merge 目录中尚未移动的重写数据文件
+	// 重写文件 id 从 0 开始连续递增且按升序移动, 故剩余文件中的最大 id 加一即为重写文件总数
+	// 即使上次加载中途崩溃, 重新执行得到的结果仍然一致
+	dirEntries, err := os.ReadDir(mergePath)
+	if err != nil {
+		return 0, err
+	}
+	var pending []uint32
+	for _, entry := range dirEntries {
+		if !strings.HasSuffix(entry.Name(), datafile.DataFileSuffix) {
+			continue
+		}
+		fileID, err := strconv.Atoi(strings.Split(entry.Name(), ".")[0])
+		if err != nil {
+			return 0, ErrDataDirectoryCorrupted
+		}
+		pending = append(pending, uint32(fileID))
+	}
+	if len(pending) > 0 {
+		sort.Slice(pending, func(i, j int) bool { return pending[i] < pending[j] })
+		mergedNum := pending[len(pending)-1] + 1
 
-	// 处理经过重写的数据文件, 处理中途失败需返回错误
-	for fileID := uint32(0); fileID < mergeID; fileID++ {
-		// 删除原数据文件
-		destName := datafile.GetFileName(db.options.DirPath, fileID, datafile.DataFileSuffix)
-		var exist bool
-		if _, err := os.Stat(destName); err == nil {
-			if err = os.Remove(destName); err != nil {
+		// 重写文件数量少于原数据文件时, 先删除没有对应重写文件的原数据文件
+		// 其有效数据已全部位于重写文件中
+		for fileID := mergedNum; fileID < mergeID; fileID++ {
+			destName := datafile.GetFileName(db.options.DirPath, fileID, datafile.DataFileSuffix)
+			if err := os.Remove(destName); err != nil && !os.IsNotExist(err) {
 				return 0, err
 			}
-			exist = true
 		}
-		// 将重写的数据文件移动到数据目录中
-		srcFile := datafile.GetFileName(mergePath, fileID, datafile.DataFileSuffix)
-		if _, err := os.Stat(srcFile); err != nil {
-			// 如果原数据文件不存在, 则允许重写文件不存在
-			if !exist && os.IsNotExist(err) {
-				continue
+
+		// 将重写的数据文件按 id 升序移动到数据目录中, 原子地替换原数据文件
+		// 已移动的文件不会被再次处理, 重复执行是安全的
+		for _, fileID := range pending {
+			srcFile := datafile.GetFileName(mergePath, fileID, datafile.DataFileSuffix)
+			destName := datafile.GetFileName(db.options.DirPath, fileID, datafile.DataFileSuffix)
+			if err := os.Rename(srcFile, destName); err != nil {
+				return 0, err
 			}
-			return 0, err
-		}
-		if err := os.Rename(srcFile, destName); err != nil {
-			return 0, err
 		}
 	}
 
 	// 移动对应的 hint 文件, 移动失败应当返回错误
+	// hint 文件不在 merge 目录中说明上次加载已完成移动
 	srcHintFile := datafile.GetFileName(mergePath, 0, datafile.HintFileSuffix)
 	destHintFile := datafile.GetFileName(db.options.DirPath, 0, datafile.HintFileSuffix)
-	if _, err := os.Stat(srcHintFile); err != nil {
+	if _, err := os.Stat(srcHintFile); err == nil {
+		if err := os.Rename(srcHintFile, destHintFile); err != nil {
+			return 0, err
+		}
+	} else if _, err := os.Stat(destHintFile); err != nil {
 		return 0, err
 	}
-	if err := os.Rename(srcHintFile, destHintFile); err != nil {
+
+	// 全部移动完成后才允许删除 merge 目录, 中途失败需保留以便下次重试
+	if err := os.RemoveAll(mergePath); err != nil {
 		return 0, err
 	}
 
